@@ -163,6 +163,7 @@ type world struct {
 	firstTrigAtEnq    atomic.Int64 // enqReturned when the first trigger was sent (-1: none sent)
 	flipActions       atomic.Int64
 	twinBlocks        atomic.Int64
+	longTraces        atomic.Int64
 	oddLines          atomic.Int64
 	oddSubmissions    atomic.Int64
 	submitsAfterPlain atomic.Int64
@@ -715,6 +716,11 @@ func (p *producer) tracerBlock(phase int) int {
 	w.tracerObs = append(w.tracerObs, addTracerObs{Phase: phase, Pkg: pkg, Nil: tr == nil})
 	w.tracerObsMu.Unlock()
 	nl := r.Range(0, 6)
+	if r.Chance(1, 10) {
+		// long traces, around the sizes at which a line buffer would grow
+		nl = vlib.Pick(r, 31, 32, 33, 34, 63, 64, 65, 66, 96, 97, 128, 129, r.Range(33, 500), r.Range(33, 500))
+		w.longTraces.Add(1)
+	}
 	type plan struct {
 		site int
 		text string
